@@ -80,15 +80,24 @@ func HarnessC08a() {
 	// after a "restart" the cache is empty and fills by loading. One handle modifies a tree loaded
 	// from r1; r1 loaded again through the same cache must still have r1's contents and name.
 	cfg2 := symConfig(st, &vCache{})
+	if verifBoundOr("WRITERCACHE", 0) == 1 {
+		// no restart: the cache still holds the node objects the writer built in memory
+		cfg2 = cfg
+	}
 	a, err := r1.LoadMast(vctx, cfg2)
 	verifAssert("C01.load.err", err == nil)
 	if err != nil {
 		return
 	}
 	k, v := verifNondetKey("k"), verifNondetVal("v")
-	verifAssert("C01.insert.err", a.Insert(vctx, symKey{k}, v) == nil)
 	k2, v2 := verifNondetKey("k"), verifNondetVal("v")
-	_ = a.Delete(vctx, symKey{k2}, v2) // may or may not hit
+	if verifBoundOr("DELFIRST", 0) == 1 {
+		_ = a.Delete(vctx, symKey{k2}, v2) // may or may not hit
+		verifAssert("C01.insert.err", a.Insert(vctx, symKey{k}, v) == nil)
+	} else {
+		verifAssert("C01.insert.err", a.Insert(vctx, symKey{k}, v) == nil)
+		_ = a.Delete(vctx, symKey{k2}, v2) // may or may not hit
+	}
 	b, err := r1.LoadMast(vctx, cfg2)
 	verifAssert("C01.load.err", err == nil)
 	if err != nil {
